@@ -829,23 +829,24 @@ theorem fromVec_safe (v : Array (Item × P)) :
   show IMap.lookup s'.map k = _
   rw [hmap]; exact lookup_fromVec v k
 
-theorem fromIter_safe (xs : Array (Item × P)) :
-    ∃ s', fromIter xs = .ok s' ∧ s'.WF ∧ s'.MinMaxHeap ∧
+/-- `FromIterator`, every `size_hint` lower bound below the capacity limit -/
+theorem fromIter_safe (lo : Nat) (xs : Array (Item × P)) (hlo : lo < capLimit) :
+    ∃ s', fromIter lo xs = .ok s' ∧ s'.WF ∧ s'.MinMaxHeap ∧
       (∀ k, s'.abs k = xs.toList.reverse.find? (fun e => e.1.key == k)) ∧
       s'.size = (xs.toList.map (·.1.key)).eraseDups.length := by
   obtain ⟨s', hrun, hwf, hmap, hsz, hmm⟩ := heapBuild_spec (wf_fromIter xs)
-  refine ⟨s', hrun, hwf, hmm, ?_, by rw [hsz, size_fromIter]⟩
+  refine ⟨s', by rw [fromIter_of_lt xs hlo]; exact hrun, hwf, hmm, ?_, by rw [hsz, size_fromIter]⟩
   intro k
   show IMap.lookup s'.map k = _
   rw [hmap]; exact lookup_fromIter xs k
 
-/-- the deserializer is total: EVERY input sequence yields a well-formed min-max heap -/
-theorem deserialize_safe (xs : Array (Item × P)) :
-    ∃ s', deserialize xs = .ok s' ∧ s'.WF ∧ s'.MinMaxHeap ∧
+/-- the deserializer is total: EVERY input sequence, under EVERY announced length, yields a well-formed min-max heap -/
+theorem deserialize_safe (hint : Option Nat) (xs : Array (Item × P)) :
+    ∃ s', deserialize hint xs = .ok s' ∧ s'.WF ∧ s'.MinMaxHeap ∧
       s'.abs = xs.foldl Store.absStep (fun _ => none) ∧
       s'.size = (xs.toList.map (·.1.key)).eraseDups.length := by
   obtain ⟨s', hrun, hwf, hmap, hsz, hmm⟩ := heapBuild_spec (wf_visitSeq xs)
-  refine ⟨s', hrun, hwf, hmm, ?_, by rw [hsz, size_visitSeq]⟩
+  refine ⟨s', by rw [deserialize_eq]; exact hrun, hwf, hmm, ?_, by rw [hsz, size_visitSeq]⟩
   show IMap.lookup s'.map = _
   rw [hmap]; exact lookup_visitSeq_fold xs
 
@@ -875,10 +876,10 @@ theorem pushAll_safe {s : Store P} (h : s.WF) (es : List (Item × P)) :
   obtain ⟨s', h1, h2, h3, _⟩ := pushAll_core es h
   exact ⟨s', h1, h2, h3⟩
 
-theorem extend_core {s : Store P} (h : s.WF) (lo : Nat) (xs : Array (Item × P)) :
+theorem extend_core {s : Store P} (h : s.WF) (lo : Nat) (xs : Array (Item × P)) (hlo : lo < capLimit) :
     ∃ s', extend s lo xs = .ok s' ∧ s'.WF ∧ s'.abs = xs.foldl Store.absStep s.abs ∧ (s.MinMaxHeap → s'.MinMaxHeap) := by
   have hcases : extend s lo xs = heapBuild (s.extend xs) ∨ extend s lo xs = pushAll xs.toList s := by
-    unfold extend
+    rw [extend_of_lt xs hlo]
     cases (if lo ≠ 0 then betterToRebuild s.size lo else false) <;> simp
   rcases hcases with hc | hc <;> rw [hc]
   · obtain ⟨s', hrun, hwf, hmap, hsz, hmm⟩ := heapBuild_spec (wf_extend h xs)
@@ -889,9 +890,9 @@ theorem extend_core {s : Store P} (h : s.WF) (lo : Nat) (xs : Array (Item × P))
     refine ⟨s', hrun, hwf, ?_, hord⟩
     rw [habs, Array.foldl_toList]
 
-theorem extend_safe {s : Store P} (h : s.WF) (lo : Nat) (xs : Array (Item × P)) :
+theorem extend_safe {s : Store P} (h : s.WF) (lo : Nat) (xs : Array (Item × P)) (hlo : lo < capLimit) :
     ∃ s', extend s lo xs = .ok s' ∧ s'.WF ∧ s'.abs = xs.foldl Store.absStep s.abs := by
-  obtain ⟨s', h1, h2, h3, _⟩ := extend_core h lo xs
+  obtain ⟨s', h1, h2, h3, _⟩ := extend_core h lo xs hlo
   exact ⟨s', h1, h2, h3⟩
 
 /-! ## The double-ended sorted iterator (`into_sorted_iter`: `next` = `pop_min`, `next_back` = `pop_max`) -/
